@@ -35,6 +35,11 @@ def run(ctx):
             raise vlib.CheckError("guard-page self-test failed (a deliberate 1-byte over-read/over-write/aligned load was not reported): %s" % st)
         one(ctx, binary, "host/%s" % profile)
     if ctx.quick:
+        # the portable back end (its byte loads go through zerocopy conversions, not raw pointers)
+        binary, log = vlib.cargo_build(features=("no_simd",), profile="release", bin_name="h_mem")
+        if binary is None:
+            raise vlib.CheckError("harness build failed (h_mem no_simd): %s" % log[-2000:])
+        one(ctx, binary, "no_simd/release", ["--families", "chacha,hash,storebytes"])
         return
     # every back end: run-time dispatch capped through hook H1 (if present), and the portable one
     names = {1: "sse2", 2: "ssse3", 3: "sse4.1", 4: "avx", 5: "avx2"}
